@@ -60,6 +60,12 @@ func (c *c10ctx) ruleR4() {
 		if b, ok := cc.Value.(*ssa.Builtin); ok && b.Name() == "close" {
 			return chanKey(cc.Args[0])
 		}
+		// defer func() { close(ch) }()
+		if d, isDefer := in.(*ssa.Defer); isDefer {
+			if inner := onlyCloses(d); inner != nil {
+				return chanKey(inner.Args[0])
+			}
+		}
 		return ""
 	}
 	// goroutine functions of library code in the root package
